@@ -91,12 +91,19 @@ def _start_state_path(ctx, rep):
                                    # F-114: ... and a state that goes on matching is not left for good when it is entered either
                                    f"[x for x in {m2.group(2)} if x is self.starting_state or x in jumped_to or any((not t.error_handling for t in x.transitions))]") and \
                         jt == "set((target for transition in self.all_transitions() for action in transition.actions for sub in action.all_subactions() for target in sub.get_target_override_targets()))" and \
-                        step is not None and any(isinstance(i, ast.If) and ast.unparse(i.test) == excl and
+                        step is not None and any(isinstance(i, ast.If) and ast.unparse(i.test) in (excl, f"{ast.unparse(c.args[0])} and {excl}") and
                                                  any(isinstance(x, ast.Call) and ast.unparse(x.func) == "self.append_action_step" and [ast.unparse(y) for y in x.args] == [ast.unparse(c.args[0]), excl]
                                                      for x in ast.walk(i)) for i in ast.walk(f))
                     rep.check(ok2, "C01.s", q, f"chain_actions_into({ast.unparse(c.args[0])}, ..): the starting state and every state an action jumps to are excluded and given a step",
                               f"`{ast.unparse(c)[:110]}`: the set of states entered without taking a transition (the machine's starting state; the handler an overflowing append leaves for) is not "
                               "excluded / not given the action step: the first actions of `catch (outofspace) { n = 7; caught(); /b*/; }` are skipped when the append overflows", line=c.lineno)
+                    continue
+                if m is not None and q == "DFA.chain_actions_at_end":
+                    # F-119: the end of a machine is entered by jumps as well (the end of a loop left by a break under an if)
+                    rep.bad("C01.s", q, "chain_actions_into at the end of a machine: states an action jumps to are excluded and given a step",
+                            f"`{ast.unparse(c)[:110]}` only sets the machine's own starting state aside: an accepting state that is entered by an action's stored state (the end of a loop "
+                            "left by a break under an if) has no entering transition to carry the actions either - `try { loop { \"a\"; if x == 1 { break; } x = [x + 1]; } } catch { \"e\"; } "
+                            "y = 7; hk();` leaves y = 0 and never calls hk on \"aa\"", line=c.lineno)
                     continue
                 routed = m is not None and step is not None and any(
                     isinstance(i, ast.If) and ast.unparse(i.test).endswith(f"self.starting_state in {m.group(2)}") and
